@@ -51,7 +51,7 @@ ROWS = {
          "T: shapes · H: codec",
          "codec (run-time generated struct types incl. layout-shaped ones; round trip, re-marshal stability; the in-domain direct check uses the theorem's hypothesis)", "codec model tied differentially; F12"),
  "C11": ("parse_lossless, parse_eq_ref (= split-based reference on every input), spans_exact, values_no_delim, groups_surface_once, parse_error_iff, lexer terminal token last, lexer_goroutine_facts (regenerated)",
-         "T: lexPrefix/emit (DispatchFlow), goroutine-structure facts · H: fragment loop, Parse", "parse (all strings ≤ 7 over the delimiter alphabet + random; token streams via hook; goroutine count)", "channel runtime; goroutine exit observed"),
+         "T: the whole lexer and parser (ParseFlow/DispatchFlow: regenerated structured IR = model, for every input), goroutine-structure facts", "parse (all strings ≤ 7 over the delimiter alphabet + random; token streams via hook; goroutine count)", "the channel is modelled as a producer list (rendezvous); goroutine exit observed"),
  "C12": ("EndToEnd.newHash_canonical_⟨S⟩ (∀ request: output accepted by the independent recogniser with documented prefix, requested cost in canonical form, default-length salt over the alphabet, fixed-length digest = Key's result re-encoded), params_of_newHash_⟨S⟩, defaults_agree (Params and Check apply the same defaults: regenerated flow IR)",
          "T: flow IR (evaluates to the pipeline model: FlowModel), shapes, constants · H: codec, KDF bodies",
          "scheme (independent regular expression, byte identity with model, BSDi integer coding, the exported cost bound, Check ⇔ Key(Params) on non-canonical spellings)", "model↔Go differential"),
@@ -113,7 +113,8 @@ is empty). One run of a check does, in order:
    base64 / Argon2 / SHA-1 index expressions as Lean `Nat` kernels with explicit `% 2^bits`, the
    guard clauses of every `Key`, a hash-transcript IR of the KDF bodies (`md5crypt.Encrypt`,
    `sha2crypt.Encrypt`/`duplicate`, `cryptoutil.Permute`, the HMAC loop of `sha1.Key`), a structured IR of
-   `crypt.Check` / `RegisterHash` / `lexPrefix`, the flow IR of every `Check`/`Params`/`NewHash` (locals of the
+   `crypt.Check` / `RegisterHash` and of the whole lexer and parser (`lexPrefix`, `lexFragment`, `run`, `Parse`, …),
+   the flow IR of every `Check`/`Params`/`NewHash` (locals of the
    package's own struct types named after the type), and the slice-effect IR of every `Key` with
    module-internal callees inlined, pointer stores, and strong updates merged at block exits.
    Output is buffered and written only if the whole translation succeeded; a source the translator
